@@ -704,8 +704,60 @@ std::string doStep(Ctx &c, Session &s, const json &st, long variant) {
     else if (a == "Flush") r = outcome([&] { if (!s.f.flush()) throw std::runtime_error("flush returned false"); }, &what);
     else if (a == "Close") r = outcome([&] { closeSession(s); }, &what);
     else if (a == "Open") r = outcome([&] { openSession(s, g["n"]); }, &what);
+    else if (a == "QueryAll") r = "ok";      // the queries themselves are run by the caller (results are compared one by one)
     else throw std::runtime_error("harness: unknown action " + a);
     return r;
+}
+
+// ------------------------------------------------------------------ queries (C20)
+template <typename T> typename nix::util::Filter<T>::type filterOf(Session &s, const json &flt) {
+    std::string f = flt["f"];
+    if (f == "id") return nix::util::IdFilter<T>(s.idOf.at(flt["x"].get<long>()));
+    if (f == "ids") return nix::util::IdsFilter<T>(std::vector<std::string>{s.idOf.at(flt["x"].get<long>()), s.idOf.at(flt["y"].get<long>())});
+    if (f == "name") return nix::util::NameFilter<T>(s.dict.name(flt["n"]));
+    if (f == "type") return nix::util::TypeFilter<T>(typeOf(flt["n"]));
+    return nix::util::AcceptAll<T>();
+}
+template <typename T> json eidsOf(Session &s, const std::vector<T> &v) {
+    json o = json::array();
+    for (auto &e : v) { auto it = s.eidOfId.find(e.id()); o.push_back(it == s.eidOfId.end() ? -100L : it->second); }
+    return o;
+}
+// runs every query of the emitted QueryAll step; returns the first disagreement (or null)
+json runQueries(Session &s, const json &queries, long &count) {
+    for (const auto &q : queries) {
+        std::string k = q["k"]; long e = q["e"]; long d = q["d"];
+        size_t depth = d < 0 ? std::numeric_limits<size_t>::max() : (size_t) d;
+        json got; bool ordered = true;
+        std::string what;
+        std::string o = outcome([&] {
+            if (k == "findSections") got = d < 0 && (count % 2) ? eidsOf(s, handleOf(s, e).section.findSections(filterOf<nix::Section>(s, q["flt"])))
+                                                                   : eidsOf(s, handleOf(s, e).section.findSections(filterOf<nix::Section>(s, q["flt"]), depth));
+            else if (k == "fileFindSections") { got = eidsOf(s, s.f.findSections(filterOf<nix::Section>(s, q["flt"]), depth)); ordered = false; }
+            else if (k == "findSources") got = eidsOf(s, handleOf(s, e).source.findSources(filterOf<nix::Source>(s, q["flt"]), depth));
+            else if (k == "blockFindSources") { got = eidsOf(s, handleOf(s, e).block.findSources(filterOf<nix::Source>(s, q["flt"]), depth)); ordered = false; }
+            else if (k == "inheritedProperties") got = eidsOf(s, handleOf(s, e).section.inheritedProperties());
+            else if (k == "referringBlocks") { got = eidsOf(s, handleOf(s, e).section.referringBlocks()); ordered = false; }
+            else if (k == "referringDataArrays") { got = eidsOf(s, handleOf(s, e).section.referringDataArrays()); ordered = false; }
+            else if (k == "referringTags") { got = eidsOf(s, handleOf(s, e).section.referringTags()); ordered = false; }
+            else if (k == "referringMultiTags") { got = eidsOf(s, handleOf(s, e).section.referringMultiTags()); ordered = false; }
+            else if (k == "referringSources") { got = eidsOf(s, handleOf(s, e).section.referringSources()); ordered = false; }
+            else if (k == "srcReferringDataArrays") { got = eidsOf(s, handleOf(s, e).source.referringDataArrays()); ordered = false; }
+            else if (k == "srcReferringTags") { got = eidsOf(s, handleOf(s, e).source.referringTags()); ordered = false; }
+            else if (k == "srcReferringMultiTags") { got = eidsOf(s, handleOf(s, e).source.referringMultiTags()); ordered = false; }
+            else if (k == "parentSource") { nix::Source p = handleOf(s, e).source.parentSource(); got = json::array(); if (p) got.push_back(s.eidOfId.count(p.id()) ? s.eidOfId[p.id()] : -100L); }
+            else throw std::runtime_error("harness: unknown query " + k);
+        }, &what);
+        count++;
+        json want = q["out"];
+        if (o != "ok") return json{{"query", q}, {"observed", "threw: " + what}};
+        if (!ordered) {   // multi-root searches and back references: the same entities, each once (order not prescribed)
+            std::vector<long> a(got.begin(), got.end()), b(want.begin(), want.end());
+            std::sort(a.begin(), a.end()); std::sort(b.begin(), b.end());
+            if (a != b) return json{{"query", q}, {"observed", got}};
+        } else if (got != want) return json{{"query", q}, {"observed", got}};
+    }
+    return json();
 }
 
 // expected observation in the shape the observer produces
@@ -813,6 +865,18 @@ json handleInner(Ctx &c, const json &rec) {
         }
         const json &st = all[i];
         std::string what;
+        if (st["a"] == "QueryAll") {
+            json before = observe(s);
+            long nq = 0;
+            json bad = runQueries(s, st["out"], nq);
+            json after = observe(s);
+            if (!bad.is_null()) { result = mismatch("query:" + bad["query"]["k"].get<std::string>(), bad["query"]["out"], bad["observed"]); result["query"] = bad["query"]; }
+            else if (before != after) result = mismatch("query changed the file", before, after);
+            else result = ok();
+            result["n"] = nq;
+            i++;
+            continue;
+        }
         std::string r = doStep(c, s, st, (long) i);
         json exp = normalise(rec["post"]);
         if (r != st["res"].get<std::string>()) {
